@@ -183,11 +183,12 @@ def fs : List Flat.FieldSpec := [("age", tStr, true), ("name", tStr, false), ("s
 /-- `mutation { m1 m2 createAnimal { age name sound } }` -/
 def opEx : Op := op ctx ms "Animal" "createAnimal" fs
 
-/-- a downstream with well-formed answers: lookups (`query`) get the `node`, `A` and `B` answer
+/-- a downstream with well-formed answers (the created id `a#1` contains `#`, the path separator,
+    on purpose: ids are arbitrary non-empty strings): lookups (`query`) get the `node`, `A` and `B` answer
     their root requests with the requested keys -/
 def down : Downstream := fun u batch => .ok (batch.map (fun rq =>
   if rq.header.kind == .query then [("node", .obj [("age", .str "7")])]
-  else if u == "A" then [("m1", .num "1"), ("createAnimal", .obj [("id", .str "a1"), ("name", .str "rex"), ("sound", .null)])]
+  else if u == "A" then [("m1", .num "1"), ("createAnimal", .obj [("id", .str "a#1"), ("name", .str "rex"), ("sound", .null)])]
   else [("m2", .num "2")]))
 
 theorem fam : Fam ctx ms "A" "B" "Animal" "createAnimal" fs where
@@ -213,7 +214,7 @@ theorem fam : Fam ctx ms "A" "B" "Animal" "createAnimal" fs where
 
 theorem urls_eq : urlsOf ctx ms "A" "Animal" "createAnimal" fs = ["B", "A"] := by decide
 
-theorem good : Good ctx ms "A" "B" "Animal" "createAnimal" fs down "a1" where
+theorem good : Good ctx ms "A" "B" "Animal" "createAnimal" fs down "a#1" where
   hroot := by
     intro u hu
     rw [urls_eq] at hu
@@ -225,7 +226,7 @@ theorem good : Good ctx ms "A" "B" "Animal" "createAnimal" fs down "a1" where
       · simp only [down, List.map_cons, List.map_nil, hk]
         rfl
       · simp [GoodResp, J.keys]
-    · refine ⟨[("m1", .num "1"), ("createAnimal", .obj [("id", .str "a1"), ("name", .str "rex"), ("sound", .null)])], ?_, ?_⟩
+    · refine ⟨[("m1", .num "1"), ("createAnimal", .obj [("id", .str "a#1"), ("name", .str "rex"), ("sound", .null)])], ?_, ?_⟩
       · simp only [down, List.map_cons, List.map_nil, hk]
         rfl
       · simp only [GoodResp, ↓reduceIte]
